@@ -20,7 +20,7 @@ RULE = ('seeded generator: random apertures 4..22 per side and random partitions
 ASSUMPTIONS = ['segments of one plane are pairwise disjoint (a partition)']
 PLAN = {'quick': {'gen': 8}, 'thorough': {'gen': 16, 'tests': 1}}
 REQUIRED_BUCKETS = ['k=1', 'k=2', 'k=3-8', 'bbox-overlap', 'style:stripes', 'style:blobs', 'style:interleaved',
-                    'chain:1', 'chain:2', 'chain:2-segmented', 'propagated', 'padded', 'tilt-chain', 'segment-tilts', 'fitted-vs-global',
+                    'chain:1', 'chain:2', 'chain:2-segmented', 'chain:2-same-boxes', 'propagated', 'padded', 'tilt-chain', 'segment-tilts', 'fitted-vs-global',
                     'fft', 'fft:scratch', 'groups:partial', 'rescale-after-use']
 REQUIRED_ANCHORS = ['probe:propagate_dft', 'probe:propagate_fft', 'probe:Wavefront.insert', 'anchor:Plane.multiply', 'anchor:slice_offset', 'anchor:boundary_slice',
                     'anchor:field.reduce', 'anchor:field._merge']
@@ -132,7 +132,42 @@ def workload(ctx, lentil):
                 B = B | A
             opd2 = gen.opd(rng, shape, wl)
             amp2 = gen.amplitude(rng, B)
-            if seg2:
+            same_boxes = seg2 and k >= 2 and i % 3 == 0
+            if same_boxes:
+                # a second segmentation of the same aperture whose segments have pairwise the SAME bounding boxes as the first
+                # plane's but other members (interlocking combs, pinwheels): samples change hands between two segments only
+                # where both boxes keep their extent
+                B = A.copy()
+                amp2 = gen.amplitude(rng, B)
+                lab = np.zeros(shape, int) - 1
+                for n_, sg_ in enumerate(segs):
+                    lab[sg_] = n_
+                def boxes_(lb):
+                    out_ = []
+                    for n_ in range(k):
+                        q_ = np.argwhere(lb == n_)
+                        out_.append(None if not len(q_) else (q_[:, 0].min(), q_[:, 0].max(), q_[:, 1].min(), q_[:, 1].max()))
+                    return out_
+                b0 = boxes_(lab)
+                idxA = np.argwhere(A)
+                swaps = 0
+                for _ in range(6 * len(idxA)):
+                    pa, pb = idxA[rng.integers(0, len(idxA), 2)]
+                    la, lb_ = lab[pa[0], pa[1]], lab[pb[0], pb[1]]
+                    if la == lb_:
+                        continue
+                    lab2 = lab.copy()
+                    lab2[pa[0], pa[1]], lab2[pb[0], pb[1]] = lb_, la
+                    if boxes_(lab2) == b0:
+                        lab = lab2
+                        swaps += 1
+                segsB = np.array([lab == n_ for n_ in range(k)])
+                if swaps:
+                    ctx.bucket('chain:2-same-boxes')
+            if seg2 and same_boxes:
+                p2m = lentil.Pupil(amplitude=amp2, opd=opd2, mask=B.astype(float), pixelscale=dx, focal_length=z)
+                p2s = lentil.Pupil(amplitude=amp2, opd=opd2, mask=segsB.astype(float), pixelscale=dx, focal_length=z)
+            elif seg2:
                 segsB, _ = gen.partition(rng, B, int(rng.integers(2, 6)))
                 p2m = lentil.Pupil(amplitude=amp2, opd=opd2, mask=B.astype(float), pixelscale=dx, focal_length=z)
                 p2s = lentil.Pupil(amplitude=amp2, opd=opd2, mask=segsB.astype(float), pixelscale=dx, focal_length=z)
